@@ -102,6 +102,47 @@ def forge_ordinary_child(it, i, depth=None, hash_=None):
     return c
 
 
+def require_forgeable(it, cls):
+    """the fixtures forge cells whose hashes and depths are free symbols by writing the instance fields `_hashes` / `_depths` the class
+    itself keeps; where the class keeps them some other way (a class-level property of that name, no instance field) a forged cell is not
+    a cell of that class, and anything derived from it would be a statement about the fixture, not the code: analysis error, no verdict"""
+    import ast as _ast
+    from .core import AnalysisError
+    done = getattr(it.prog, '_forgeable', None)
+    if done is None:
+        fields, classlevel = set(), set()
+        for c in it.prog.mro(cls):
+            for nm, fn in c.methods.items():
+                if nm in ('_hashes', '_depths', '_hash'):
+                    classlevel.add(nm)
+                for x in _ast.walk(fn):
+                    if isinstance(x, _ast.Attribute) and isinstance(x.value, _ast.Name) and x.value.id == 'self' \
+                            and isinstance(x.ctx, _ast.Store):
+                        fields.add(x.attr)
+        missing = sorted({'_hashes', '_depths'} - fields) + sorted(classlevel)
+        _o, ch = it.prog.find_method(cls, 'calculate_hashes')
+        if ch is not None:
+            # state the hash computation itself writes (assigns, or mutates through a method call on the field)
+            for x in _ast.walk(ch):
+                tgt = None
+                if isinstance(x, _ast.Attribute) and isinstance(x.ctx, _ast.Store):
+                    tgt = x
+                elif isinstance(x, _ast.Call) and isinstance(x.func, _ast.Attribute) and x.func.attr in (
+                        'append', 'extend', 'insert', 'update', 'setdefault', 'add') and isinstance(x.func.value, _ast.Attribute):
+                    tgt = x.func.value
+                elif isinstance(x, _ast.Subscript) and isinstance(x.ctx, _ast.Store) and isinstance(x.value, _ast.Attribute):
+                    tgt = x.value
+                if tgt is not None and isinstance(tgt.value, _ast.Name) and tgt.value.id == 'self' \
+                        and tgt.attr not in ('_hashes', '_depths'):
+                    missing.append(tgt.attr)
+        missing = sorted(set(missing))
+        done = it.prog._forgeable = (not missing, missing)
+    if not done[0]:
+        raise AnalysisError('the cell class does not keep its per-level hashes and depths in the instance fields _hashes / _depths '
+                            f'(not plain instance fields: {", ".join(done[1])}); the cell fixtures cannot forge cells for this '
+                            'representation')
+
+
 def reforge(it, c):
     """after a fixture has replaced the hashes / depths / level mask a constructor-built cell caches, the statements of Cell.__init__ that
     follow the hash computation are executed again on it, so that whatever else the constructor derives from them (descriptor bytes, the
@@ -110,6 +151,7 @@ def reforge(it, c):
     import ast as _ast
     from .interp import Frame
     cls = it.prog.cls('Cell')
+    require_forgeable(it, cls)
     owner, fn = it.prog.find_method(cls, '__init__')
     if fn is None:
         return c
